@@ -55,8 +55,14 @@ package antlr
 // T-ANTLR: the text of a parse-tree node is a function of the node; strconv (trusted/strconv.spec)
 //@ extern pure func antlr_GetText(c Ref) string
 //@ extern pure func antlr_SIMPLENAME(c Ref) Ref
+//@ extern pure func antlr_RR_BRACKET(c Ref) Ref
+//@ extern pure func antlr_LR_BRACKET(c Ref) Ref
+//@ extern pure func antlr_NEGATION(c Ref) Ref
+//@ extern pure func antlr_NIL_LITERAL(c Ref) Ref
+//@ extern pure func antlr_MemberVariable(c Ref) Ref
 //@ extern pure func antlr_RuleName(c Ref) Ref
 //@ extern pure func str_lower(a string) string
+//@ extern pure func str_sub(a string, lo int, hi int) string
 //@ extern pure func antlr_RuleDescription(c Ref) Ref
 // unquoteString (a port of strconv.Unquote that also accepts single quotes) is outside the verified subset (byte-level append):
 // ASSUMED not to panic and to have no effect
@@ -161,17 +167,19 @@ package antlr
 
 // C07: the listener files a node only when everything its snapshot depends on is final; nothing already filed is changed
 //@ func (thisListener *GruleV3ParserListener) ExitExpression(ctx) ()
-//@   serves C07
+//@   serves C07 C05
 //@   requires thisListener != nil && thisListener.KnowledgeBase != nil && thisListener.KnowledgeBase.WorkingMemory != nil && thisListener.KnowledgeBase.WorkingMemory.expressionSnapshotMap != nil && thisListener.ErrorCallback != nil && stackInv(thisListener.Stack)
 //@   requires filedStable()
 //@   modifies GruleV3ParserListener.StopParse, stack.*, pkg.GruleErrorReporter.*, ast.Expression.Negated, map[string]*ast.Expression, ast.Expression.LeftExpression, ast.Expression.RightExpression, ast.Expression.SingleExpression, ast.WhenScope.Expression, ast.Assignment.Expression, ast.ArrayMapSelector.Expression, ast.ArgumentList.Arguments, $filedE, $filedNegE
 //@   ensures[C07] filedstable: filedStable()
+//@   ensures[C05,C07] negated: !old(thisListener.StopParse) && old(thisListener.Stack.length) > 0 && old(thisListener.Stack.top.value) != nil && typeof(old(thisListener.Stack.top.value)) == typeid(*ast.Expression) && !thisListener.StopParse && antlr_LR_BRACKET(ctx) != nil && antlr_RR_BRACKET(ctx) != nil && antlr_NEGATION(ctx) != nil ==> as(old(thisListener.Stack.top.value), *ast.Expression).Negated
 //@ func (thisListener *GruleV3ParserListener) ExitExpressionAtom(ctx) ()
-//@   serves C07
+//@   serves C07 C05
 //@   requires thisListener != nil && thisListener.KnowledgeBase != nil && thisListener.KnowledgeBase.WorkingMemory != nil && thisListener.KnowledgeBase.WorkingMemory.expressionAtomSnapshotMap != nil && thisListener.ErrorCallback != nil && stackInv(thisListener.Stack)
 //@   requires filedStable()
 //@   modifies GruleV3ParserListener.StopParse, stack.*, pkg.GruleErrorReporter.*, ast.ExpressionAtom.Negated, map[string]*ast.ExpressionAtom, ast.Expression.ExpressionAtom, ast.ExpressionAtom.ExpressionAtom, ast.ThenExpression.ExpressionAtom, $filedA, $filedNegA
 //@   ensures[C07] filedstable: filedStable()
+//@   ensures[C05,C07] negated: !old(thisListener.StopParse) && old(thisListener.Stack.length) > 0 && old(thisListener.Stack.top.value) != nil && typeof(old(thisListener.Stack.top.value)) == typeid(*ast.ExpressionAtom) && !thisListener.StopParse ==> as(old(thisListener.Stack.top.value), *ast.ExpressionAtom).Negated == (antlr_NEGATION(ctx) != nil)
 
 // ---- the listener as the builder sees it ----
 //@ func NewGruleV3ParserListener(KnowledgeBase, errorCallBack) (r)
@@ -287,6 +295,7 @@ package antlr
 //@   ensures rules: RInv(thisListener) && (old(thisListener.Grl) != nil ==> thisListener.Grl != nil)
 // C17: the entry is filed under the name the text declares; a second rule of that name is an error, never a silent overwrite
 //@   ensures[C17] named: !old(thisListener.StopParse) && old(thisListener.Stack.length) > 0 && old(thisListener.Stack.top.value) != nil && typeof(old(thisListener.Stack.top.value)) == typeid(*ast.RuleEntry) && antlr_RuleName(ctx) != nil ==> as(old(thisListener.Stack.top.value), *ast.RuleEntry).RuleName == antlr_GetText(antlr_RuleName(ctx))
+//@   ensures[C17] described: !old(thisListener.StopParse) && old(thisListener.Stack.length) > 0 && old(thisListener.Stack.top.value) != nil && typeof(old(thisListener.Stack.top.value)) == typeid(*ast.RuleEntry) && antlr_RuleDescription(ctx) != nil ==> as(old(thisListener.Stack.top.value), *ast.RuleEntry).RuleDescription == str_sub(antlr_GetText(antlr_RuleDescription(ctx)), 1, len(antlr_GetText(antlr_RuleDescription(ctx))) - 1)
 //@   ensures[C17] filed: !old(thisListener.StopParse) && old(thisListener.Stack.length) > 0 && old(thisListener.Stack.top.value) != nil && typeof(old(thisListener.Stack.top.value)) == typeid(*ast.RuleEntry) && old(thisListener.Stack.length) >= 2 && old(thisListener.Stack.top.prev.value) == thisListener.Grl && thisListener.Grl != nil && typeof(thisListener.Grl) == typeid(*ast.Grl) && old(thisListener.Grl.RuleEntries) != nil ==> len(thisListener.ErrorCallback.Errors) > old(len(thisListener.ErrorCallback.Errors)) || (has(thisListener.Grl.RuleEntries, as(old(thisListener.Stack.top.value), *ast.RuleEntry).RuleName) && thisListener.Grl.RuleEntries[as(old(thisListener.Stack.top.value), *ast.RuleEntry).RuleName] == as(old(thisListener.Stack.top.value), *ast.RuleEntry))
 //@   ensures[C17] nooverwrite: !old(thisListener.StopParse) && old(thisListener.Stack.length) > 0 && old(thisListener.Stack.top.value) != nil && typeof(old(thisListener.Stack.top.value)) == typeid(*ast.RuleEntry) && old(thisListener.Stack.length) >= 2 && old(thisListener.Stack.top.prev.value) == thisListener.Grl && thisListener.Grl != nil && typeof(thisListener.Grl) == typeid(*ast.Grl) && old(thisListener.Grl.RuleEntries) != nil ==> forall k string :: old(has(thisListener.Grl.RuleEntries, k)) ==> has(thisListener.Grl.RuleEntries, k) && thisListener.Grl.RuleEntries[k] == old(thisListener.Grl.RuleEntries[k])
 //@ func (thisListener *GruleV3ParserListener) EnterSalience(ctx) ()
@@ -558,7 +567,7 @@ package antlr
 //@   ensures sticky: old(thisListener.StopParse) ==> thisListener.StopParse
 //@   ensures rules: RInv(thisListener) && (old(thisListener.Grl) != nil ==> thisListener.Grl != nil)
 //@ func (thisListener *GruleV3ParserListener) EnterFunctionCall(ctx) ()
-//@   serves C17 C20
+//@   serves C17 C20 C05
 //@   opt alloc=1
 //@   requires LInv(thisListener) && RInv(thisListener) && ctx != nil
 // T-ANTLR / walk order (ASSUMED): children the grammar requires are present; below a rule entry the stack holds the listener's own Grl
@@ -569,6 +578,7 @@ package antlr
 //@   ensures errorskept: errorsKept(thisListener)
 //@   ensures sticky: old(thisListener.StopParse) ==> thisListener.StopParse
 //@   ensures rules: RInv(thisListener) && (old(thisListener.Grl) != nil ==> thisListener.Grl != nil)
+//@   ensures[C05,C17] calledname: !old(thisListener.StopParse) ==> thisListener.Stack.length == old(thisListener.Stack.length) + 1 && typeof(thisListener.Stack.top.value) == typeid(*ast.FunctionCall) && as(thisListener.Stack.top.value, *ast.FunctionCall).FunctionName == antlr_GetText(antlr_SIMPLENAME(ctx))
 //@ func (thisListener *GruleV3ParserListener) ExitFunctionCall(ctx) ()
 //@   serves C17 C20
 //@   opt alloc=1
@@ -600,7 +610,7 @@ package antlr
 //@   ensures sticky: old(thisListener.StopParse) ==> thisListener.StopParse
 //@   ensures rules: RInv(thisListener) && (old(thisListener.Grl) != nil ==> thisListener.Grl != nil)
 //@ func (thisListener *GruleV3ParserListener) EnterVariable(ctx) ()
-//@   serves C17 C20
+//@   serves C17 C20 C05
 //@   opt alloc=1
 //@   requires LInv(thisListener) && RInv(thisListener) && ctx != nil
 //@   nopanic
@@ -609,6 +619,7 @@ package antlr
 //@   ensures errorskept: errorsKept(thisListener)
 //@   ensures sticky: old(thisListener.StopParse) ==> thisListener.StopParse
 //@   ensures rules: RInv(thisListener) && (old(thisListener.Grl) != nil ==> thisListener.Grl != nil)
+//@   ensures[C05,C17] varname: !old(thisListener.StopParse) ==> typeof(thisListener.Stack.top.value) == typeid(*ast.Variable) && (antlr_MemberVariable(ctx) != nil && len(antlr_GetText(antlr_MemberVariable(ctx))) > 0 ==> as(thisListener.Stack.top.value, *ast.Variable).Name == str_sub(antlr_GetText(antlr_MemberVariable(ctx)), 1, len(antlr_GetText(antlr_MemberVariable(ctx))))) && (!(antlr_MemberVariable(ctx) != nil && len(antlr_GetText(antlr_MemberVariable(ctx))) > 0) && antlr_SIMPLENAME(ctx) != nil && len(antlr_GetText(antlr_SIMPLENAME(ctx))) > 0 ==> as(thisListener.Stack.top.value, *ast.Variable).Name == antlr_GetText(antlr_SIMPLENAME(ctx)))
 //@ func (thisListener *GruleV3ParserListener) ExitVariable(ctx) ()
 //@   serves C17 C20
 //@   opt alloc=1
@@ -652,7 +663,7 @@ package antlr
 //@   ensures sticky: old(thisListener.StopParse) ==> thisListener.StopParse
 //@   ensures rules: RInv(thisListener) && (old(thisListener.Grl) != nil ==> thisListener.Grl != nil)
 //@ func (thisListener *GruleV3ParserListener) ExitConstant(ctx) ()
-//@   serves C17 C20
+//@   serves C17 C20 C05
 //@   opt alloc=1
 //@   requires LInv(thisListener) && RInv(thisListener) && ctx != nil
 //@   nopanic
@@ -661,6 +672,7 @@ package antlr
 //@   ensures errorskept: errorsKept(thisListener)
 //@   ensures sticky: old(thisListener.StopParse) ==> thisListener.StopParse
 //@   ensures rules: RInv(thisListener) && (old(thisListener.Grl) != nil ==> thisListener.Grl != nil)
+//@   ensures[C05,C17] nilliteral: !old(thisListener.StopParse) && old(thisListener.Stack.length) > 0 && old(thisListener.Stack.top.value) != nil && typeof(old(thisListener.Stack.top.value)) == typeid(*ast.Constant) && !thisListener.StopParse && antlr_NIL_LITERAL(ctx) != nil ==> as(old(thisListener.Stack.top.value), *ast.Constant).IsNil
 //@ func (thisListener *GruleV3ParserListener) EnterStringLiteral(ctx) ()
 //@   serves C17 C20
 //@   opt alloc=1
